@@ -272,6 +272,53 @@ pub fn eval_case(img: &BuiltImage, c: &Case) -> (String, Option<(String, String)
             }
         }
     }
+    // the documented contract of a positioning call: "returns an error if there was an issue
+    // seeking the target and sets the iterator to invalid". So after seek / seek_to_first /
+    // seek_to_last returned Ok, a valid iterator stands on the right entry - judged at once, without
+    // asking take_error (which a client only has reason to consult when the iterator became invalid)
+    if viol.is_none() && !lenient {
+        let want: Vec<(Vec<u8>, Vec<u8>)> = img.model.iter().map(|(k, v)| (k.clone(), v.clone())).collect();
+        let mut calls: Vec<(String, Option<Vec<u8>>, u8)> = vec![("seek_to_first()".to_string(), None, 0), ("seek_to_last()".to_string(), None, 1)];
+        for t in img.history.keys.iter() {
+            calls.push((format!("seek({})", esc(t)), Some(t.clone()), 2));
+        }
+        for (name, target, how) in calls {
+            let it = match db.new_iterator(ReadOptions::default()) {
+                Err(_) => {
+                    errors += 1;
+                    continue;
+                }
+                Ok(it) => it,
+            };
+            let mut it: DbIter = Box::new(it);
+            let r = match how {
+                0 => it.seek_to_first(),
+                1 => it.seek_to_last(),
+                _ => it.seek(target.as_ref().unwrap()),
+            };
+            if r.is_err() {
+                errors += 1;
+                continue;
+            }
+            if !it.is_valid() {
+                continue;
+            }
+            let expected: Option<(Vec<u8>, Vec<u8>)> = match how {
+                0 => want.first().cloned(),
+                1 => want.last().cloned(),
+                _ => want.iter().find(|(k, _)| k >= target.as_ref().unwrap()).cloned(),
+            };
+            let got = it.current().map(|(k, v)| (k.clone(), v.clone()));
+            if got != expected {
+                let sh = |x: &Option<(Vec<u8>, Vec<u8>)>| x.as_ref().map(|(k, v)| format!("{}={}", esc(k), show_val(v))).unwrap_or("nothing".into());
+                viol = Some((
+                    "C15.positioned_on_wrong_entry_without_error".into(),
+                    format!("{} returned Ok and left a valid iterator on {}, but on the uncorrupted database it stands on {}", name, sh(&got), sh(&expected)),
+                ));
+                break;
+            }
+        }
+    }
     // a compaction must not launder the damage: after a manual compaction of everything (which may
     // fail) every get still fails or returns the model's value — entries of the damaged table must
     // not vanish so that overwritten or deleted data is served again
